@@ -194,7 +194,7 @@ pub fn serialize(root: &Node, rws: &[Rw], expanded_by_default: &[&str]) -> Strin
 }
 
 #[derive(Debug, Clone, Copy, PartialEq, Eq)]
-enum Via {
+pub enum Via {
     Hello,
     Lock,
     Get,
@@ -204,11 +204,11 @@ enum Via {
     Installed,
 }
 
-struct Seed {
-    name: &'static str,
-    via: Via,
-    xml: String,
-    expanded: &'static [&'static str],
+pub struct Seed {
+    pub name: &'static str,
+    pub via: Via,
+    pub xml: String,
+    pub expanded: &'static [&'static str],
 }
 
 fn err_el(sev: &str, full: bool) -> String {
@@ -216,7 +216,7 @@ fn err_el(sev: &str, full: bool) -> String {
     format!("<rpc-error><error-type>protocol</error-type><error-tag>operation-failed</error-tag><error-severity>{sev}</error-severity>{extra}</rpc-error>")
 }
 
-fn seeds() -> Vec<Seed> {
+pub fn seeds() -> Vec<Seed> {
     let reply = |children: &str| format!("<rpc-reply message-id=\"1\" xmlns=\"{BASE_NS}\" xmlns:junos=\"http://xml.juniper.net/junos/23.1R0/junos\">{children}</rpc-reply>");
     let hello = |caps: &[&str], id: &str| format!("<hello xmlns=\"{BASE_NS}\"><capabilities>{}</capabilities><session-id>{id}</session-id></hello>", caps.iter().map(|c| format!("<capability>{}</capability>", esc(c))).collect::<String>());
     let installed = format!("<data><configuration xmlns=\"{XNM}\" junos:changed-seconds=\"1709120869\" junos:changed-localtime=\"2024-02-28 11:47:49 UTC\"><policy-options><policy-statement><name>fltr-foo</name><term><name>inet</name><from><family>inet</family><route-filter><address>192.0.2.0/24</address><choice-ident>prefix-length-range</choice-ident><choice-value>/24-/32</choice-value></route-filter></from><then><accept/></then></term><then><reject/></then></policy-statement><policy-statement><name>fltr-bar</name><then><reject/></then></policy-statement></policy-options></configuration></data>");
